@@ -13,7 +13,7 @@ def setup():
     os.makedirs(MUT, exist_ok=True)
     if not os.path.isdir(REPO):
         r = sh("git -C /repo worktree add --detach %s HEAD" % REPO); assert r.returncode == 0, r.stderr
-    sh("git checkout -- . && git clean -fdq -- src tests examples", cwd=REPO)
+    sh("git checkout -- . && git clean -fdq -- src tests examples && git checkout -q --detach $(git -C /repo rev-parse HEAD)", cwd=REPO)
     os.makedirs(VERIF, exist_ok=True)
     sh("rsync -a --delete --exclude target /verif/harness/ %s/harness/" % VERIF)
     sh("rsync -a --delete --exclude found /verif/replays/ %s/replays/" % VERIF)
